@@ -320,7 +320,10 @@ PROPS = {
                        "min_mac_len long, not longer than the computed one and equal to its prefix, BadTrunc/BadSig otherwise; "
                        "Key::signature_slice in bounds; Time48::{from_u64, from_slice, into_octets} are the 48-bit big-endian codec "
                        "and eq_fudged(a,b,f) <=> |a-b| <= f without overflow; ClientSequence::answer_subsequent (first statement, FRAGMENT) never "
-                       "lets the run of unsigned messages exceed 99 and ClientSequence::done is Ok iff the last message was signed. One native replay computes the MAC of a BADTIME error "
+                       "lets the run of unsigned messages exceed 99 and ClientSequence::done is Ok iff the last message was signed; "
+                       "ServerSequence::answer_with_fudge (real text, HMAC and TSIG record construction as assumed stubs) continues "
+                       "its running context with exactly the MAC it puts on the wire (possibly truncated), which is what the "
+                       "receiver continues with; Tsig::new/rdlen: the 65535-octet limit (see C05). One native replay computes the MAC of a BADTIME error "
                        "response independently (regression guard for D9, a sample, not an obligation).",
         "not_covered": "MAC values and signed-octet layout (Variables::sign, SigningContext::*: to_be_bytes has no Verus specification and "
                        "the tsig feature is not built under Kani), end-to-end sign/verify, tamper rejection, TSIG record placement "
